@@ -353,6 +353,12 @@ static cJSON *get_item_from_pointer(cJSON * const object, const char * pointer, 
         }
     }
 
+    if (pointer[0] != '\0')
+    {
+        /* a JSON pointer is either empty or starts with '/' */
+        return NULL;
+    }
+
     return current_element;
 }
 
